@@ -1,4 +1,5 @@
 import XV.Model.Pool
+import XV.Model.Miner
 import XV.Drv.Chain
 /-!
 line-protocol driver of the pool model (`xvdriver pool`); op language (documented in go/cmd/pool/main.go):
@@ -14,15 +15,57 @@ line-protocol driver of the pool model (`xvdriver pool`); op language (documente
   order <id,id,..>                    -> possible|impossible
   replay <id,id,..>                   -> ok|reject  admitted one by one from the start state and same final tables
   rawsort nodes=a,b e=a>b,..          -> cyclic | ok sizes=<sorted component sizes>
+
+the miner round (model `XV.Miner`; the state of this part survives `sync`):
+
+  reset fee=0|1 [award=A] [decay=G:N/D]  the award schedule of the genesis configuration (no fee: award 0)
+  award <h>                           -> CalcAward(h)
+  height <h>                          -> ok|differ  claim: the trunk height (tracked: pack / fblock / mine)
+  task <H> <id> c=<h> | task <H> <id> p -> ok       a timer task of the live state, confirmed at height h / pending
+  mine [trunc=K]                      -> h=<height> award=<amount> timer=<ids|->   one round of Miner.mining
 -/
 namespace XV.Drv.Pool
 open XV.Chain XV.Pool XV.Drv XV.Drv.Chain
+
+/-- the miner part: award schedule, trunk height, the timer tasks claimed since the last block (task, confirming
+height; `none` = pending) -/
+structure MS where
+  cfg : XV.Miner.AwardCfg := {}
+  height : Nat := 0
+  tasks : List (XV.Miner.Task × Option Nat) := []
+deriving Inhabited
 
 structure DS where
   s0 : St := {}
   cur : St := {}
   pool : List Tx := []
+  ms : MS := {}
 deriving Inhabited
+
+/-- `reset fee=1 award=A decay=G:N/D` -/
+def cfgOf (kv : List (String × String)) : XV.Miner.AwardCfg :=
+  if getKV kv "fee" != "1" then {}
+  else
+    let award := ((lookup kv "award").bind String.toNat?).getD 50
+    match (getKV kv "decay").splitOn ":" with
+    | [g, r] =>
+      match g.toNat?, r.splitOn "/" with
+      | some g, [n, d] =>
+        match n.toNat?, d.toNat? with
+        | some n, some d => { award := award, gap := g, num := n, den := d }
+        | _, _ => { award := award }
+      | _, _ => { award := award }
+    | _ => { award := award }
+
+/-- the node of the miner model: block i of the trunk registers the tasks claimed as confirmed at height i -/
+def nodeOf (m : MS) : XV.Miner.Node :=
+  { trunk := (List.range m.height).reverse.map (fun i =>
+      { height := i + 1, award := XV.Miner.calcAward m.cfg (i + 1), timer := [],
+        adds := m.tasks.filterMap (fun p => if p.2 == some (i + 1) then some p.1 else none) }),
+    pendingAdds := m.tasks.filterMap (fun p => if p.2 == none then some p.1 else none) }
+
+/-- a block was added by other means than `mine` -/
+def bump (d : DS) : DS := { d with ms := { d.ms with height := d.ms.height + 1, tasks := [] } }
 
 def natList (s : String) : List Nat := (splitList s).filterMap String.toNat?
 
@@ -60,9 +103,38 @@ def step (d : DS) (line : String) : DS × String :=
     let kv := kvOf rest
     let pos := posOf rest
     match op with
-    | "reset" => ({}, "ok")
-    | "sync" => ({}, "-")      -- a new check phase: start state and pool are described afresh
-    | "dtx" | "atx" | "submit" | "fblock" | "pack" | "sample" => (d, "-")
+    | "reset" => ({ ms := { cfg := cfgOf kv } }, "ok")
+    | "sync" => ({ ms := d.ms }, "-")      -- a new check phase: start state and pool are described afresh
+    | "dtx" | "atx" | "submit" | "sample" => (d, "-")
+    | "fblock" | "pack" => (bump d, "-")
+    | "award" =>
+      match (pos.headD "").toNat? with
+      | some h => (d, toString (XV.Miner.calcAward d.ms.cfg h))
+      | none => (d, "bad-op")
+    | "height" =>
+      match pos with
+      | [h] => (d, if h.toNat? == some d.ms.height then "ok" else "differ")
+      | _ => (d, "bad-op")
+    | "task" =>
+      match pos with
+      | hs :: is :: rest =>
+        match hs.toNat?, is.toNat? with
+        | some h, some i =>
+          let st : Option (Option Nat) :=
+            if rest == ["p"] then some none else ((lookup kv "c").bind String.toNat?).map some
+          match st with
+          | some c => ({ d with ms := { d.ms with tasks := d.ms.tasks ++ [(⟨h, i⟩, c)] } }, "ok")
+          | none => (d, "bad-op")
+        | _, _ => (d, "bad-op")
+      | _ => (d, "bad-op")
+    | "mine" =>
+      let k := ((lookup kv "trunc").bind String.toNat?).getD 0
+      if k > d.ms.height then (d, "bad-op")
+      else
+        let (b, _) := XV.Miner.mineRound d.ms.cfg (nodeOf d.ms) k
+        let tm := if b.timer.isEmpty then "-" else String.intercalate "," ((sortNat b.timer).map toString)
+        ({ d with ms := { d.ms with height := b.height, tasks := [] } },
+          s!"h={b.height} award={b.award} timer={tm}")
     | "utxo" =>
       match pos with
       | [v, addr, amt] =>
